@@ -64,7 +64,25 @@ def _is_unordered(fi: FuncInfo, e: ast.expr) -> bool:
         a = find_assign(fi.node, e.id)
         if a and all(isinstance(x.value, (ast.Set, ast.SetComp)) or (isinstance(x.value, ast.Call) and src(x.value.func) in ("set", "frozenset")) for x in a if x.value is not None):
             return True
+        # bound (only) to calls of package functions that are declared to return a set
+        if a and all(x.value is not None and _returns_set(x.value) for x in a):
+            return True
+    if isinstance(e, ast.Call) and _returns_set(e):
+        return True
     return False
+
+
+def _returns_set(call: ast.expr) -> bool:
+    from .. import core
+
+    if not (isinstance(call, ast.Call) and isinstance(call.func, (ast.Name, ast.Attribute))):
+        return False
+    name = call.func.id if isinstance(call.func, ast.Name) else call.func.attr
+    repo = core.CURRENT_REPO
+    if repo is None:
+        return False
+    cands = [f for q, f in repo.funcs.items() if q.split(".")[-1] == name and f.node.returns is not None]
+    return bool(cands) and all(src(f.node.returns).startswith(("Set[", "FrozenSet[", "AbstractSet[", "set[", "typing.Set[")) for f in cands)
 
 
 def _strip_wrappers(e: ast.expr) -> ast.expr:
@@ -95,6 +113,16 @@ def _body_order_effects(fi: FuncInfo, loop: ast.For) -> List[str]:
             root = recv.split(".")[0].split("[")[0]
             assigned_in_body = any(isinstance(x, ast.Assign) and any(isinstance(t, ast.Name) and t.id == root for t in x.targets) for x in body_nodes)
             if not assigned_in_body:
+                if isinstance(n.func.value, ast.Name) and not getattr(_body_order_effects, "_busy", False):
+                    _body_order_effects._busy = True  # type: ignore[attr-defined]
+                    try:
+                        local = any(isinstance(x, (ast.Assign, ast.AnnAssign)) and any(isinstance(t, ast.Name) and t.id == recv for t in (x.targets if isinstance(x, ast.Assign) else [x.target]))
+                                    for x in walk_no_nested(fi.node))
+                        free = local and _only_consumed_order_free(fi, recv, (loop.end_lineno or loop.lineno) + 1)
+                    finally:
+                        _body_order_effects._busy = False  # type: ignore[attr-defined]
+                    if free:
+                        continue
                 why.append(f"{recv}.{n.func.attr}(...) builds a list in iteration order")
         if isinstance(n, ast.AugAssign) and isinstance(n.target, ast.Name):
             assigned_in_body = any(isinstance(x, ast.Assign) and any(isinstance(t, ast.Name) and t.id == n.target.id for t in x.targets) for x in body_nodes)
@@ -113,16 +141,93 @@ def _body_order_effects(fi: FuncInfo, loop: ast.For) -> List[str]:
                     isinstance(x, ast.Assign) and any(isinstance(t, ast.Name) and t.id == n.id for t in x.targets)
                     and (loop.end_lineno or 0) < x.lineno <= n.lineno
                     for x in walk_no_nested(fi.node)
+                ) or any(
+                    isinstance(x, (ast.For, ast.AsyncFor)) and any(isinstance(t, ast.Name) and t.id == n.id for t in ast.walk(x.target))
+                    and (loop.end_lineno or 0) < x.lineno <= n.lineno
+                    for x in walk_no_nested(fi.node)
                 )
                 accum = any(
                     isinstance(x, ast.Assign) and any(isinstance(t, ast.Name) and t.id == n.id for t in x.targets)
                     and n.id in {y.id for y in ast.walk(x.value) if isinstance(y, ast.Name)}
                     for x in body_nodes
                 )
-                if not re_assigned and not accum:
+                consts = [x.value for x in body_nodes if isinstance(x, ast.Assign) and any(isinstance(t, ast.Name) and t.id == n.id for t in x.targets)]
+                flag = bool(consts) and all(isinstance(c, ast.Constant) for c in consts) and len({repr(c.value) for c in consts}) == 1
+                if not re_assigned and not accum and not flag:
                     why.append(f"`{n.id}` keeps the value of the last iteration and is used after the loop")
                     break
     return sorted(set(why))
+
+
+def _holder_name(par, node) -> Optional[str]:
+    """`L = <node>` / `L: T = <node>` -> "L"."""
+    if isinstance(par, ast.Assign) and par.value is node and len(par.targets) == 1 and isinstance(par.targets[0], ast.Name):
+        return par.targets[0].id
+    if isinstance(par, ast.AnnAssign) and par.value is node and isinstance(par.target, ast.Name):
+        return par.target.id
+    return None
+
+
+_ORDER_FREE_CONSUMERS = {"len", "set", "frozenset", "any", "all", "sum", "sorted", "bool", "dict"}
+
+
+def _only_consumed_order_free(fi: FuncInfo, name: str, after_line: int, depth: int = 0) -> bool:
+    """Is every later use of the local sequence `name` insensitive to its element order?
+    (iterated by loops with commutative bodies, membership/len/any/all/sorted-with-key-judged-elsewhere, truth tests.)
+    Anything else - returned, yielded, stored, indexed, passed to another call - counts as order-sensitive."""
+    parents: Dict[int, ast.AST] = {}
+    for n in walk_no_nested(fi.node):
+        for c in ast.iter_child_nodes(n):
+            parents[id(c)] = n
+    uses = [n for n in walk_no_nested(fi.node) if isinstance(n, ast.Name) and n.id == name and isinstance(n.ctx, ast.Load) and n.lineno >= after_line]
+    if not uses:
+        return True
+    # `L.sort(key=<total key>)` fixes the order: whatever happens afterwards is deterministic
+    for u in sorted(uses, key=lambda x: x.lineno):
+        par = parents.get(id(u))
+        gp = parents.get(id(par)) if par is not None else None
+        if isinstance(par, ast.Attribute) and par.attr == "sort" and isinstance(gp, ast.Call) and gp.func is par:
+            fake = ast.Call(func=ast.Name(id="sorted", ctx=ast.Load()), args=[u], keywords=gp.keywords)
+            if _key_is_total(fi, fake)[0]:
+                uses = [x for x in uses if x.lineno < u.lineno]
+            break
+    for u in uses:
+        par = parents.get(id(u))
+        # order-preserving wrappers: filter(pred, L), enumerate(L), reversed(L), iter(L), tuple(L), list(L)
+        while isinstance(par, ast.Call) and isinstance(par.func, ast.Name) and par.func.id in ("filter", "enumerate", "reversed", "iter", "tuple", "list") and u in par.args:
+            u, par = par, parents.get(id(par))
+        # for x in L: <commutative body>
+        if isinstance(par, (ast.For, ast.AsyncFor)) and par.iter is u:
+            if _body_order_effects(fi, par):
+                return False
+            continue
+        if isinstance(par, ast.comprehension) and par.iter is u:
+            comp = next((c for c in walk_no_nested(fi.node) if isinstance(c, (ast.SetComp, ast.DictComp, ast.GeneratorExp, ast.ListComp)) and par in c.generators), None)
+            cpar = parents.get(id(comp)) if comp is not None else None
+            if isinstance(comp, (ast.SetComp, ast.DictComp)):
+                continue
+            if isinstance(cpar, ast.Call) and isinstance(cpar.func, ast.Name) and cpar.func.id in _ORDER_FREE_CONSUMERS | {"min", "max"}:
+                continue
+            if isinstance(cpar, ast.Call) and isinstance(cpar.func, ast.Attribute) and cpar.func.attr in ("update", "difference_update", "intersection_update", "union"):
+                continue
+            return False
+        if isinstance(par, ast.Call) and u in par.args and isinstance(par.func, ast.Name) and par.func.id in _ORDER_FREE_CONSUMERS:
+            continue
+        if isinstance(par, ast.Call) and u in par.args and isinstance(par.func, ast.Attribute) and par.func.attr in ("update", "difference_update", "intersection_update", "union", "issubset", "issuperset"):
+            continue
+        if isinstance(par, ast.Compare) and any(isinstance(o, (ast.In, ast.NotIn)) for o in par.ops) and u in par.comparators:
+            continue
+        if isinstance(par, (ast.If, ast.While, ast.IfExp, ast.Assert)) and par.test is u:
+            continue
+        if isinstance(par, ast.UnaryOp) and isinstance(par.op, ast.Not):
+            continue
+        if isinstance(par, ast.BoolOp):
+            continue
+        # the sequence's own building calls: L.append(x) / L.extend(...)
+        if isinstance(par, ast.Attribute) and par.value is u and par.attr in ("append", "extend", "add", "update", "sort"):
+            continue
+        return False
+    return True
 
 
 def _key_is_total(fi: FuncInfo, call: ast.Call) -> Tuple[bool, str]:
@@ -148,6 +253,32 @@ def _key_is_total(fi: FuncInfo, call: ast.Call) -> Tuple[bool, str]:
             if v is not None and isinstance(v, ast.DictComp) and "enumerate(" in src(v):
                 return True, "key is the element's position in an enumerated list (injective)"
         return False, f"key `{t}` can tie for distinct elements"
+    if isinstance(key, ast.Name):
+        # a local `def key(x): return table[x]` / `key = lambda ...` / `table.__getitem__`
+        for d in ast.walk(fi.node):
+            if isinstance(d, ast.FunctionDef) and d is not fi.node and d.name == key.id:
+                rets = [r for r in ast.walk(d) if isinstance(r, ast.Return) and r.value is not None]
+                if len(rets) == 1 and d.args.args:
+                    lam = ast.Lambda(args=d.args, body=rets[0].value)
+                    fake = ast.Call(func=call.func, args=call.args, keywords=[ast.keyword(arg="key", value=lam)])
+                    return _key_is_total(fi, fake)
+        v = single_assign_value(fi.node, key.id)
+        if isinstance(v, (ast.Lambda, ast.Attribute)):
+            fake = ast.Call(func=call.func, args=call.args, keywords=[ast.keyword(arg="key", value=v)])
+            return _key_is_total(fi, fake)
+    if isinstance(key, ast.Attribute) and key.attr in ("__getitem__", "get", "index") and isinstance(key.value, (ast.Name, ast.Attribute)):
+        tv = single_assign_value(fi.node, key.value.id) if isinstance(key.value, ast.Name) else None
+        if key.attr == "index" or (tv is not None and isinstance(tv, ast.DictComp) and "enumerate(" in src(tv)):
+            return True, "key is the element's position in an ordered list (injective)"
+        # self.<table>.__getitem__ where the class fills <table>[elem] = i inside `for i, elem in enumerate(...)`
+        if isinstance(key.value, ast.Attribute) and isinstance(key.value.value, ast.Name) and key.value.value.id == "self" and fi.cls is not None:
+            for m in fi.cls.methods.values():
+                for lp in [x for x in ast.walk(m.node) if isinstance(x, ast.For)]:
+                    if isinstance(lp.iter, ast.Call) and src(lp.iter.func) == "enumerate" and isinstance(lp.target, ast.Tuple) and isinstance(lp.target.elts[0], ast.Name):
+                        idx = lp.target.elts[0].id
+                        for a in ast.walk(lp):
+                            if isinstance(a, ast.Assign) and isinstance(a.targets[0], ast.Subscript) and src(a.targets[0].value) == src(key.value) and isinstance(a.value, ast.Name) and a.value.id == idx:
+                                return True, "key is the element's position in an enumerated list recorded by the class (injective)"
     return False, f"key `{src(key)}` can tie for distinct elements"
 
 
@@ -225,6 +356,13 @@ def c11_1(ctx: Ctx):
                     elif consumer in ("min", "max", "sorted"):
                         pass  # handled at the call
                     else:
+                        holder = _holder_name(par, n)
+                        if holder is not None and _only_consumed_order_free(fi, holder, par.lineno + 1):
+                            ctx.ok(fi, n, f"{type(n).__name__} over `{src(gen.iter)[:50]}` bound to `{holder}`", "every later use of the sequence is order-insensitive", key=k)
+                            continue
+                        if isinstance(par, (ast.For, ast.AsyncFor)) and par.iter is n and not _body_order_effects(fi, par):
+                            ctx.ok(fi, n, f"{type(n).__name__} over `{src(gen.iter)[:50]}` iterated by a commutative loop", key=k)
+                            continue
                         ctx.fail(fi, n, f"{type(n).__name__} over `{src(gen.iter)[:50]}`",
                                  f"builds an ordered sequence from an unordered collection (consumer: {consumer or 'none'})", key=k)
             # calls
@@ -257,6 +395,10 @@ def c11_1(ctx: Ctx):
                     if isinstance(par, ast.comprehension):
                         continue
                     n_sites += 1
+                    holder = _holder_name(par, n)
+                    if holder is not None and _only_consumed_order_free(fi, holder, par.lineno + 1):
+                        ctx.ok(fi, n, f"{fn}(`{src(a0)[:50]}`) bound to `{holder}`", "a snapshot whose every later use is order-insensitive", key=f"{q}::{fn}::{src(a0)[:60]}")
+                        continue
                     ctx.fail(fi, n, f"{fn}(`{src(a0)[:50]}`)", "materialises an unordered collection as a sequence that is used as such", key=f"{q}::{fn}::{src(a0)[:60]}")
             if isinstance(n, ast.Call) and isinstance(n.func, ast.Attribute) and n.func.attr == "extend" and n.args and _is_unordered(fi, _strip_wrappers(n.args[0])):
                 n_sites += 1
